@@ -416,6 +416,7 @@ func (l *ledger) update(pop *genetics.Population, strictNew bool, rec *Rec) erro
 	prevInnov, prevNode := l.maxInnov, l.maxNode
 	newGenes := map[int64]int{}
 	newLinks := map[[3]int]int64{}
+	var twoNumbers *sameLinkTwoNumbers
 	for i, o := range pop.Organisms {
 		for _, n := range o.Genotype.Nodes {
 			role, known := l.roles[n.Id]
@@ -450,9 +451,10 @@ func (l *ledger) update(pop *genetics.Population, strictNew bool, rec *Rec) erro
 			}
 			if g.InnovationNum > prevInnov {
 				newGenes[g.InnovationNum]++
-				if other, dup := newLinks[k]; dup && other != g.InnovationNum {
-					// the same new link under two numbers within one generation
-					return &sameLinkTwoNumbers{k: k, a: other, b: g.InnovationNum}
+				if other, dup := newLinks[k]; dup && other != g.InnovationNum && twoNumbers == nil {
+					// the same new link under two numbers within one generation: reported after everything is
+					// recorded (callers checking the parallel executor ignore exactly this finding)
+					twoNumbers = &sameLinkTwoNumbers{k: k, a: other, b: g.InnovationNum}
 				}
 				newLinks[k] = g.InnovationNum
 			}
@@ -463,6 +465,9 @@ func (l *ledger) update(pop *genetics.Population, strictNew bool, rec *Rec) erro
 			rec.Class("innovation shared by several organisms of one generation")
 			break
 		}
+	}
+	if twoNumbers != nil {
+		return twoNumbers
 	}
 	return nil
 }
